@@ -80,7 +80,7 @@ def universes(basis):
     b = jc.bermuda()
     A = dict(country="US", per_occurrence_limit=1000, details={"lob": "auto", "n": 1})
     B = dict(country="US", per_occurrence_limit=1000, details={"lob": "home", "n": 1})
-    C = dict(country="DE", currency="EUR", per_occurrence_limit=2500.5, details={"lob": "auto"}, loss_details={"cov": "x"})
+    C = dict(country="DE", currency="EUR", per_occurrence_limit=2500.5, details={"lob": "auto", "n": 2}, loss_details={"cov": "x"})
     P1 = (D(2020, 1, 1), D(2020, 3, 31))
     P2 = (D(2020, 4, 1), D(2020, 6, 30))
     E1, E2 = D(2020, 3, 31), D(2020, 6, 30)
@@ -96,10 +96,18 @@ def universes(basis):
     out = []
     for ui, vs in enumerate(vals):
         cells = []
-        for (mk, (s, e), ev), v in zip(coords, vs):
+        for ci, ((mk, (s, e), ev), v) in enumerate(zip(coords, vs)):
             mk = dict(mk)
             if ui == 1 and isinstance(mk.get("per_occurrence_limit"), int):
                 mk["per_occurrence_limit"] = float(mk["per_occurrence_limit"])   # 1000 == 1000.0: the same slice
+            # Python-equal metadata written differently INSIDE one operand and ACROSS operands: the detail
+            # keys filled in another order, n as 1 / 1.0 / True
+            d = mk["details"]
+            variant = (ui + ci) % 3
+            if variant == 1:
+                mk["details"] = {"n": float(d["n"]), "lob": d["lob"]}
+            elif variant == 2:
+                mk["details"] = {"n": (True if d["n"] == 1 else d["n"]), "lob": d["lob"]}
             m = b.Metadata(**{k: (dict(x) if isinstance(x, dict) else x) for k, x in mk.items()})
             if basis == "inc":
                 prev = s - datetime.timedelta(days=1) if ev == E1 or (s, e) == P2 else E1
@@ -525,12 +533,23 @@ def random_pairs(ctx, run: Runner, n):
                                                          "per_occurrence_limit"]))
         if len(cells) > 14:
             cells = cells[:14]
-        if k % 4 == 3 and cells:      # equal metadata written differently on the right operand only
-            pass
+        if k % 2 == 1 and cells:      # >= 2 detail keys, so that another insertion order exists
+            cache = {}
+            cells = [jc.with_meta(c, cache.setdefault(id(c.metadata), jc.at_least_two_details(c.metadata))) for c in cells]
+            # ... and written differently on some cells of the LEFT operand itself
+            for i in rng.sample(range(len(cells)), max(1, len(cells) // 4)):
+                cells[i] = jc.with_meta(cells[i], jc.alias_meta(cells[i].metadata, rng))
         t1 = jc.mk_triangle(cells)
         t2 = derive_second(t1, rng, g)
-        if k % 4 == 3 and t2.cells:
+        if k % 2 == 1 and t2.cells:   # equal metadata written differently on the right operand
             t2 = jc.mk_triangle([jc.with_meta(c, jc.alias_meta(c.metadata, rng)) for c in t2.cells])
+        if k % 6 == 4 and t2.cells:   # the right operand's metadata differ only in WHERE a key lives
+            mvd = {}
+            for c in t2.cells:
+                if id(c.metadata) not in mvd:
+                    mv, base = jc.moved_meta(c.metadata)
+                    mvd[id(c.metadata)] = mv if base is c.metadata else c.metadata
+            t2 = jc.mk_triangle([jc.with_meta(c, mvd[id(c.metadata)]) for c in t2.cells])
         if k % 7 == 6:                # disjoint coordinates
             t2 = jc.mk_triangle([c for c in t2.cells if ckey(c, None, False) not in {ckey(x, None, False) for x in t1.cells}])
         try:
@@ -596,10 +615,31 @@ def directed(ctx, run: Runner):
                      values=dict(c.values), metadata=c.metadata) for c in ulc[:2]]
     T = {"cum": jc.mk_triangle(ulc[:3]), "cum2": jc.mk_triangle(urc[1:4]), "inc": jc.mk_triangle(uli[:3]),
          "cell": jc.mk_triangle(plain), "empty": jc.mk_triangle([])}
+    # operands whose metadata differ only in WHERE a key lives (same flattened content): never a match
+    def at(meta_kw, vals_shift):
+        m = bm.Metadata(**meta_kw)
+        return jc.mk_triangle([bm.CumulativeCell(period_start=c.period_start, period_end=c.period_end,
+                                                 evaluation_date=c.evaluation_date,
+                                                 values={"paid": 10 * i + vals_shift, f"f{vals_shift}": i}, metadata=m)
+                               for i, c in enumerate(ulc[:2] + ulc[4:])])
+    T["det"] = at(dict(details={"coverage": "BI", "state": "NY"}), 1)
+    T["ldet"] = at(dict(details={"state": "NY"}, loss_details={"coverage": "BI"}), 2)
+    T["attr"] = at(dict(currency="USD", details={"state": "NY"}), 3)
+    T["attr_as_detail"] = at(dict(details={"state": "NY", "currency": "USD"}), 4)
     for name, t in T.items():
         cs.add_def(f"d_{name}", ct.ccells(t.cells), len(t))
     cs.hold = True
     J = {k: jc.tri_to_json(t) for k, t in T.items()}
+    for x, y in [("det", "ldet"), ("ldet", "det"), ("attr", "attr_as_detail"), ("attr_as_detail", "attr")]:
+        for jt in JOIN_TYPES:
+            for on in (None, ["coverage", "state", "currency"]):
+                run.join_merge(T[x], T[y], f"d_{x}", f"d_{y}", jt, on if x in ("det", "ldet") or on is None else None,
+                               {"t1": J[x], "t2": J[y], "jt": jt, "on": on if x in ("det", "ldet") or on is None else None})
+        for sfx in (None, "_r"):
+            run.pm(T[x], T[y], f"d_{x}", f"d_{y}", sfx, {"t1": J[x], "t2": J[y], "suffix": sfx})
+        run.statics(T[x], T[y], f"d_{x}", f"d_{y}", ["paid", "f1", "f2", "f3", "f4"],
+                    {"t1": J[x], "t2": J[y], "fields": ["paid", "f1", "f2", "f3", "f4"]})
+        run.coalesce([T[x], T[y]], [f"d_{x}", f"d_{y}"], {"ts": [J[x], J[y]]})
     for x, y in [("cum", "inc"), ("inc", "cum"), ("cell", "cum"), ("cum", "cell"), ("empty", "inc"), ("inc", "empty"),
                  ("empty", "cum"), ("cum", "empty"), ("empty", "empty"), ("cum", "cum2")]:
         for jt in JOIN_TYPES + ["outer", ""]:
@@ -732,14 +772,15 @@ def run(ctx):
     ctx.rule = (
         "exhaustive: all 32x32 pairs of sub-triangles (incl. empty) of a 5-cell universe (operands carry different "
         "values/field sets at equal coordinates, including None values that override / are right-only; metadata differ "
-        "in country / details.lob / currency / per_occurrence_limit, the limit written 1000 on the left and 1000.0 on "
-        "the right) x 6 join types x {None, [], every non-empty subset of [country, lob, per_occurrence_limit]} for join and merge, x suffixes for period_merge, "
+        "in country / details.lob / currency / per_occurrence_limit; equal metadata are written differently inside each "
+        "operand and across operands: detail keys in another order, n = 1 / 1.0 / True, limit 1000 / 1000.0) x 6 join types x {None, [], every non-empty subset of [country, lob, per_occurrence_limit]} for join and merge, x suffixes for period_merge, "
         "x 4 field lists for add_statics; all 32^3 triples for coalesce; cumulative and incremental (incremental with "
         "a prev_evaluation_date-only difference).  The real operations and the Python oracles run on that full product "
         "(quick tier, incremental: 3 `on` variants, a quarter of the triples); inside coqc the thorough tier evaluates "
         "the full product, the quick tier every pair x every join type with on=None plus one rotating `on` variant per "
         "pair, the 16^3 triples of the first four cells plus a sample; directed error "
-        "branches (cell-type clash, unknown join type, empty operands); random larger pairs from harness/gen.py with "
+        "branches (cell-type clash, unknown join type, empty operands) and operands whose metadata differ only in "
+        "where a key lives (details vs loss_details, attribute vs detail key of that name); random larger pairs from harness/gen.py with "
         "overlapping/disjoint coordinates, differing field sets, equal-but-differently-written metadata.  Non-trivial: "
         "operands with >= 2 cells in total or an error branch.")
     ctx.assumptions += [
